@@ -9,42 +9,6 @@ Definition check_truth := truth_with antex_corr_table.
 Import ListNotations.
 Local Open Scope string_scope.
 
-Definition slot_contains (g s : nat * option nat) : bool :=
-  Nat.leb (fst g) (fst s) &&
-  match snd g, snd s with
-  | None, _ => true
-  | Some b', Some b => Nat.leb b b'
-  | Some _, None => false
-  end.
-
-Definition slot_disjoint (g s : nat * option nat) : bool :=
-  match snd g, snd s with
-  | Some b', Some b => Nat.leb b' (fst s) || Nat.leb b (fst g)
-  | None, Some b => Nat.leb b (fst g)
-  | Some b', None => Nat.leb b' (fst s)
-  | None, None => false
-  end.
-
-(* the regenerated slot of every field contains the standard's columns of that field, touches no other field of the
-   record and ends before the label column *)
-Definition fields_cover (gen std : list fieldspec) : bool :=
-  Nat.eqb (List.length gen) (List.length std) &&
-  forallb (fun sf =>
-    match assoc (fst sf) gen with
-    | None => false
-    | Some g => slot_contains g (snd sf)
-                && match snd g, snd (snd sf) with Some b', Some _ => Nat.leb b' 60 | _, _ => true end
-                && forallb (fun other => String.eqb (fst other) (fst sf) || slot_disjoint g (snd other)) std
-    end) std.
-
-Definition table_covers (gen std : table) : bool :=
-  Nat.eqb (List.length gen) (List.length std) &&
-  forallb (fun s =>
-    match assoc (fst s) gen with
-    | None => false
-    | Some (pname, fields) => String.eqb pname (fst (snd s)) && fields_cover fields (snd (snd s))
-    end) std.
-
 Definition lambdas_probe_ok : bool :=
   forallb (fun p => String.eqb (label_of (rstrip (fst p))) (snd p)) antex_label_probes
   && forallb (fun p => Bool.eqb (is_end_of_antenna (rstrip (fst p))) (snd p)) antex_end_probes
